@@ -1618,6 +1618,7 @@ func body(r *vlib.Run) {
 	}
 	modeCloseWindow(r)
 	modeRealConnect(r)
+	modeHandlerClose(r)
 	cbs := combos()
 	type job struct {
 		trial int
@@ -1673,7 +1674,7 @@ func postMerge(tier string, counters map[string]int64) []string {
 func main() {
 	vlib.Main(&vlib.Spec{
 		ID:   "C18",
-		Rule: "Each case: the real BaseClient / CacheClient, bare or wrapped in the real ReconnectClient (disconnect and reset callbacks recorded), over a scripted client.Impl registered under its own type name; the Impl wraps one of three transports (purely scripted; the repository's client/fake Client; the real client/gnmi Client via NewFromConn against a scripted bufconn gNMI server) and plays a per-attempt script: fail in New / fail in Subscribe / deliver k numbered messages (1-3 notifications each; updates, deletes, syncs on gnmi) then error / EOF (io.EOF or ErrStopReading) / block. The transport is well-behaved (blocking reads return on context cancellation and on Close) and differs by seed in how many already received messages it still hands over after cancel/Close (0-3, or all). Close (1 in 7: cancellation of the Subscribe context, then Close) is issued from another goroutine at a FORCED position (the Impl or callback parks there until the harness has entered Close): never subscribed, before Subscribe (sequential / concurrent), unforced after a seeded delay (timed), attempt start, inside Impl.Subscribe, after the j-th message (first / middle / last), in a blocked read, inside the disconnect callback, during the backoff sleep, right after reset, inside the previous Impl's Close while the client re-subscribes, inside a method of a caller-provided custom context while Subscribe derives its own context (Close started there on another goroutine, never awaited there). Failures in New / Subscribe are reported as plain errors or, by seed, as aggregated / unusual error values (errlist.List with 2-3 causes, an error that is a []error, aggregates without causes, errors.Join). Besides explicit cancellation the Subscribe context may end by a 20-200 ms (or already expired) deadline that lands by timing in connect, streaming, a blocked read or a backoff sleep; Subscribe must then return and a following Close must return. Bare clients are also re-subscribed on the same object (1-2 earlier Subscribe calls that ended cleanly or with an error) before the Subscribe Close is aimed at. Mode realconnect: the library's own gnmi constructor dials a peer that accepts the TCP connection and stays silent (connect timeout 10 min); Close of the reconnecting client, or the end of the Subscribe context, a few ms into that dial must end it (both calls return within the 20 s bound). Mode closewindow: Subscribe on a ReconnectClient starts while its Close is inside the wrapped client's (slow) Close, a little later, or a little before Close; both calls must return. The quick tier enumerates every wrapper x transport x position x outcome kind (x first / second attempt) once, seeded random scripts (up to 7 attempts) beyond. A case is distinct non-trivial when Close or cancel was issued and both returns were observed, by the hash of its description and its event-kind trace.",
+		Rule: "Each case: the real BaseClient / CacheClient, bare or wrapped in the real ReconnectClient (disconnect and reset callbacks recorded), over a scripted client.Impl registered under its own type name; the Impl wraps one of three transports (purely scripted; the repository's client/fake Client; the real client/gnmi Client via NewFromConn against a scripted bufconn gNMI server) and plays a per-attempt script: fail in New / fail in Subscribe / deliver k numbered messages (1-3 notifications each; updates, deletes, syncs on gnmi) then error / EOF (io.EOF or ErrStopReading) / block. The transport is well-behaved (blocking reads return on context cancellation and on Close) and differs by seed in how many already received messages it still hands over after cancel/Close (0-3, or all). Close (1 in 7: cancellation of the Subscribe context, then Close) is issued from another goroutine at a FORCED position (the Impl or callback parks there until the harness has entered Close): never subscribed, before Subscribe (sequential / concurrent), unforced after a seeded delay (timed), attempt start, inside Impl.Subscribe, after the j-th message (first / middle / last), in a blocked read, inside the disconnect callback, during the backoff sleep, right after reset, inside the previous Impl's Close while the client re-subscribes, inside a method of a caller-provided custom context while Subscribe derives its own context (Close started there on another goroutine, never awaited there). Failures in New / Subscribe are reported as plain errors or, by seed, as aggregated / unusual error values (errlist.List with 2-3 causes, an error that is a []error, aggregates without causes, errors.Join). Besides explicit cancellation the Subscribe context may end by a 20-200 ms (or already expired) deadline that lands by timing in connect, streaming, a blocked read or a backoff sleep; Subscribe must then return and a following Close must return. Bare clients are also re-subscribed on the same object (1-2 earlier Subscribe calls that ended cleanly or with an error) before the Subscribe Close is aimed at. Mode realconnect: the library's own gnmi constructor dials a peer that accepts the TCP connection and stays silent (connect timeout 10 min); Close of the reconnecting client, or the end of the Subscribe context, a few ms into that dial must end it (both calls return within the 20 s bound). Mode handlerclose: Close issued from inside the notification handler of a bare BaseClient / CacheClient (on the handler's own goroutine, at a seeded notification); both calls must return. Mode closewindow: Subscribe on a ReconnectClient starts while its Close is inside the wrapped client's (slow) Close, a little later, or a little before Close; both calls must return. The quick tier enumerates every wrapper x transport x position x outcome kind (x first / second attempt) once, seeded random scripts (up to 7 attempts) beyond. A case is distinct non-trivial when Close or cancel was issued and both returns were observed, by the hash of its description and its event-kind trace.",
 		Assumptions: []string{
 			"client.RetryBaseDelay/RetryMaxDelay are set to 10/20 ms before any ReconnectClient is created; the first backoff of each client still comes from the backoff library's 500 ms default (250-750 ms) and is tolerated",
 			"termination is restated as bounded progress: a violation only when a call is still pending 20 s (1000 x RetryMaxDelay) after Close/cancel was issued, or no event at all was recorded for 20 s (after Close/cancel, or after an ended attempt of an unclosed client), AND the process heartbeat kept running in that window AND the goroutine dump shows the awaited call; otherwise inconclusive. The statement's 'within the current backoff interval' is only reported as latency histograms (close_to_*_return_*)",
